@@ -8,6 +8,7 @@ import (
 	"context"
 	"fmt"
 	"io"
+	"os"
 	"regexp"
 	"runtime"
 	"sort"
@@ -47,6 +48,8 @@ func run(c *hx.Ctx) {
 	default:
 		panic("unknown property " + c.Prop)
 	}
+	fmt.Fprintf(os.Stderr, "quiesce: calls=%d looks=%d time=%s\n", qCalls, qLooks, qTime)
+	fmt.Fprintf(os.Stderr, "env: new=%s close=%s goroutines=%d\n", envTime, closeTime, runtime.NumGoroutine())
 }
 
 // ---------------------------------------------------------------------------
@@ -55,15 +58,17 @@ func run(c *hx.Ctx) {
 
 var goroutineHdr = regexp.MustCompile(`(?m)^goroutine \d+ \[([^\],]+)`)
 
+var stackBuf = make([]byte, 1<<18)
+
 func quiescentOnce() bool {
-	buf := make([]byte, 1<<20)
+	var buf []byte
 	for {
-		n := runtime.Stack(buf, true)
-		if n < len(buf) {
-			buf = buf[:n]
+		n := runtime.Stack(stackBuf, true)
+		if n < len(stackBuf) {
+			buf = stackBuf[:n]
 			break
 		}
-		buf = make([]byte, 2*len(buf))
+		stackBuf = make([]byte, 2*len(stackBuf))
 	}
 	running := 0
 	for _, m := range goroutineHdr.FindAllSubmatch(buf, -1) {
@@ -231,7 +236,11 @@ func quietLogger() *logrus.Entry {
 	return logrus.NewEntry(log)
 }
 
+var envTime, closeTime time.Duration
+
 func newEnv(w world) *env {
+	t0 := time.Now()
+	defer func() { envTime += time.Since(t0) }()
 	ctx, cancel := context.WithCancel(context.Background())
 	le := quietLogger()
 	tb, err := testbed.NewTestbed(ctx, le, testbed.TestbedOpts{PrivKey: privs[w.local], NoEcho: true})
@@ -263,6 +272,8 @@ func newEnv(w world) *env {
 }
 
 func (e *env) close() {
+	t0 := time.Now()
+	defer func() { closeTime += time.Since(t0) }()
 	e.cancel()
 	e.tb.Release()
 	// let the goroutines of this case drain
@@ -336,6 +347,7 @@ type result struct {
 	gpl    map[int][]int
 	closed []int
 	flinks []*fakeLink
+	held   [][2]int
 }
 
 // peersOf returns the model peer numbers that occur in a universe (plus 1).
@@ -362,6 +374,7 @@ func execute(c *hx.Ctx, w world, u []lspec, h []act, concurrent int) (*result, *
 	// in use, as an application that wants these links would: otherwise the
 	// controller closes the remaining links of a peer as soon as one is lost.
 	var held []directive.Reference
+	var heldKeys [][2]int
 	seen := map[[2]int]bool{}
 	for _, l := range u {
 		k := [2]int{l.local, l.remote}
@@ -372,10 +385,12 @@ func execute(c *hx.Ctx, w world, u []lspec, h []act, concurrent int) (*result, *
 		_, ref, err := e.tb.Bus.AddDirective(link.NewEstablishLinkWithPeer(w.id(l.local), w.id(l.remote)), nil)
 		if err == nil {
 			held = append(held, ref)
+			heldKeys = append(heldKeys, k)
 		}
 	}
 	quiesce()
-	res := &result{flinks: fl}
+	res := &result{flinks: fl, held: heldKeys}
+	step := 0
 	apply := func(a act) []int {
 		switch a.kind {
 		case 0:
@@ -409,8 +424,15 @@ func execute(c *hx.Ctx, w world, u []lspec, h []act, concurrent int) (*result, *
 				if ml.GetRemotePeer() == pids[w.local] {
 					c.Failf("resolve-self-link", descHist(u, h), "%s yielded a link to the local peer", a)
 				}
-				if idx >= 0 && idx < len(fl) && fl[idx].closes.Load() != 0 {
-					c.Failf("resolve-closed-link", descHist(u, h), "%s yielded link %d which was already closed", a, idx)
+				if !inInts(liveAt(u, h, step), idx) {
+					c.Failf("lost-link-still-yielded", descHist(u, h), "event %d: %s yielded link %d which is not established-and-not-lost at that point (closed %d times)", step, a, idx, fl[idx].closes.Load())
+				}
+			}
+			if a.dst != 0 && (a.src == 0 || a.src == 1) {
+				for _, q := range liveAt(u, h, step) {
+					if u[q].remote == a.dst && !got[q] {
+						c.Failf("live-link-not-yielded", descHist(u, h), "event %d: %s did not yield the live link %d", step, a, q)
+					}
 				}
 			}
 			rh.mtx.Unlock()
@@ -420,7 +442,8 @@ func execute(c *hx.Ctx, w world, u []lspec, h []act, concurrent int) (*result, *
 		return nil
 	}
 	if concurrent <= 1 {
-		for _, a := range h {
+		for i, a := range h {
+			step = i
 			o := apply(a)
 			quiesce()
 			res.obs = append(res.obs, o)
@@ -538,6 +561,21 @@ func specLive(u []lspec, h []act) (live []int, est map[int]bool) {
 	return live, est
 }
 
+func inInts(l []int, x int) bool {
+	for _, y := range l {
+		if y == x {
+			return true
+		}
+	}
+	return false
+}
+
+// liveAt is the spec's live set before event i of the history.
+func liveAt(u []lspec, h []act, i int) []int {
+	l, _ := specLive(u, h[:i])
+	return l
+}
+
 func eqInts(a, b []int) bool {
 	if len(a) != len(b) {
 		return false
@@ -581,11 +619,26 @@ func oracle(c *hx.Ctx, u []lspec, h []act, r *result) {
 	for _, q := range r.closed {
 		closed[q] = true
 	}
+	// links that were dead (lost, replaced or refused) at some point of the
+	// history: their Close count says nothing about the current incarnation
+	everDead := map[int]bool{}
+	for i := range h {
+		l, e := specLive(u, h[:i+1])
+		in := map[int]bool{}
+		for _, q := range l {
+			in[q] = true
+		}
+		for q := range e {
+			if !in[q] {
+				everDead[q] = true
+			}
+		}
+	}
 	for q := range est {
 		if !isLive[q] && !closed[q] {
 			c.Failf("dead-link-not-closed", d, "link %d was established and is no longer live but Close was never called", q)
 		}
-		if isLive[q] && closed[q] {
+		if isLive[q] && closed[q] && !everDead[q] {
 			c.Failf("live-link-closed", d, "link %d is established and not lost but was closed", q)
 		}
 	}
@@ -631,7 +684,11 @@ func emitHist(c *hx.Ctx, u []lspec, h []act, r *result) {
 	d["by_peer"] = fmt.Sprint(r.byPeer)
 	d["closed"] = fmt.Sprint(r.closed)
 	d["resolve_obs"] = fmt.Sprint(r.obs)
-	c.Case(hx.App("Hist", univTerm(u), "1", hx.List(hs), hx.List(obs), hx.List(lk), pl(r.byPeer), pl(r.gpl), hx.NatList(r.closed)), d)
+	var hk []string
+	for _, k := range r.held {
+		hk = append(hk, "("+hx.Z(int64(k[0]))+", "+hx.Z(int64(k[1]))+")")
+	}
+	c.Case(hx.App("Hist", univTerm(u), "1", hx.List(hk), hx.List(hs), hx.List(obs), hx.List(lk), pl(r.byPeer), pl(r.gpl), hx.NatList(r.closed)), d)
 }
 
 // genUniverse: 2-4 links over 1-2 uuids and 1-3 remote peers (incl. self).
@@ -652,26 +709,39 @@ func genUniverse(c *hx.Ctx, foreignLocal bool) []lspec {
 	return u
 }
 
-func genHistory(c *hx.Ctx, u []lspec, n int, resolves bool) []act {
+// genHistory: a transport reports each link established once (duplicates
+// while it is up are allowed), losses may come late, twice, or for links it
+// never reported.  With reest, a dead link may be reported established again.
+func genHistory(c *hx.Ctx, u []lspec, n int, resolves bool, reest bool) []act {
 	var h []act
-	up := map[int]bool{}
+	used := map[int]bool{}
 	for len(h) < n {
 		r := c.Rng.Intn(100)
 		p := c.Rng.Intn(len(u))
+		live, _ := specLive(u, h)
 		switch {
 		case resolves && r < 30:
 			src := []int{0, 0, 1, 1, 3, 5}[c.Rng.Intn(6)]
 			dst := []int{2, 2, 3, 3, 4, 1, 0}[c.Rng.Intn(7)]
 			h = append(h, act{kind: 2, src: src, dst: dst})
-		case r < 65:
-			h = append(h, act{kind: 0, p: p})
-			up[p] = true
-		case r < 75 && len(up) > 0: // duplicate establish of something already reported
-			for q := range up {
-				p = q
-				break
+		case r < 60:
+			if used[p] && !reest {
+				// pick an unused link if there is one
+				for q := range u {
+					if !used[q] {
+						p = q
+						break
+					}
+				}
+				if used[p] {
+					h = append(h, act{kind: 1, p: p})
+					continue
+				}
 			}
 			h = append(h, act{kind: 0, p: p})
+			used[p] = true
+		case r < 72 && len(live) > 0: // duplicate establish of a live link
+			h = append(h, act{kind: 0, p: live[c.Rng.Intn(len(live))]})
 		default:
 			h = append(h, act{kind: 1, p: p})
 		}
@@ -787,14 +857,18 @@ func c06(c *hx.Ctx) {
 	}
 	for i := 0; i < n; i++ {
 		u := genUniverse(c, false)
-		h := genHistory(c, u, 3+c.Rng.Intn(10), c.Rng.Intn(4) == 0)
+		reest := c.Rng.Intn(8) == 0
+		h := genHistory(c, u, 3+c.Rng.Intn(10), c.Rng.Intn(3) == 0, reest)
+		if reest {
+			c.Class("re-establish-dead-link")
+		}
 		runHist(c, u, h, true)
 	}
 	// events delivered from concurrent goroutines
 	nc := n / 10
 	for i := 0; i < nc; i++ {
 		u := genUniverse(c, false)
-		h := genHistory(c, u, 2+c.Rng.Intn(4), false)
+		h := genHistory(c, u, 2+c.Rng.Intn(4), false, false)
 		w := world{local: c.Rng.Intn(2)}
 		r, e := execute(c, w, u, h, 2+c.Rng.Intn(2))
 		e.close()
@@ -836,7 +910,14 @@ func c06(c *hx.Ctx) {
 			if !found {
 				c.Failf("index-missing", d, "link %d in links but not in linksByPeerID", q)
 			}
-			if r.flinks[q].closes.Load() != 0 {
+			nEst := 0
+			for _, a := range h {
+				if a.kind == 0 && a.p == q {
+					nEst++
+				}
+			}
+			// (a link reported established twice may have been replaced and re-established in between)
+			if inInts(r.closed, q) && nEst == 1 {
 				c.Failf("closed-link-in-table", d, "link %d is in the table but was closed", q)
 			}
 		}
@@ -890,7 +971,7 @@ func c04(c *hx.Ctx) {
 	for i := 0; i < n-nStream; i++ {
 		foreign := c.Rng.Intn(6) == 0
 		u := genUniverse(c, foreign)
-		h := genHistory(c, u, 4+c.Rng.Intn(9), true)
+		h := genHistory(c, u, 4+c.Rng.Intn(9), true, false)
 		w := world{local: c.Rng.Intn(2)}
 		r, e := execute(c, w, u, h, 1)
 		e.close()
